@@ -210,7 +210,7 @@ CHECKS = {
         "streaming numbered messages while faults hit another connection (garbage in each phase, oversize frame, RST, half-close, "
         "wrong socket type raw and by real sockets, wrong PLAIN credentials, bursts of aborted connects), then a late peer; outbound "
         "connections against a listener that drops every connection, a dead port (also while other sockets of the context come and "
-        "go), a listener that goes away and comes back, a connection that flaps and then meets a dead port (inherited attempt count), "
+        "go), a listener that goes away and comes back (tcp, ipc), a wrong peer on the port (garbage / FIN at once) replaced by a real one, a connection that flaps and then meets a dead port (inherited attempt count), "
         "a storm of >256 bus events between two polls of a busy socket. The history sets Isolation's variables in Trace_Isolation.tla; TLC evaluates "
         "OnlyUserStops on every state, FaultLocal / ComesBack per run and Backoff's clauses on every measured gap. Beyond the statement: "
         "Monitor.tla (the monitor channel as emitting system + observer contract) is checked by TLC and the event streams of real monitors are "
